@@ -330,18 +330,19 @@ def MSlice.setInit : MSlice → Nat → MSlice × Bool
   -- mod.rs:746-749: `last_read` is stored first.
   | .readN i _, n => (.readN (i.setInit n).1 n, (i.setInit n).2)
 
-/-- A sum of `u32`s with overflow checks on (`iter().sum()`, `0 + a + b …` in
-the dev profile): `none` = panic. All summands are non-negative, so some
-partial sum overflows exactly when the total does. (Release profile: the sum
-wraps, see `C14_len_agree_mutslice_full_fails`.) -/
-def sumU32 (xs : List Nat) : Option Nat :=
-  if xs.sum < 4294967296 then some xs.sum else none
+/-- `u32::saturating_add`. -/
+def satAdd (a b : Nat) : Nat := min (a + b) 4294967295
+
+/-- `iter().map(spare_capacity).fold(0, u32::saturating_add)` (traits.rs:421-425)
+and `0u32.saturating_add(a).saturating_add(b)…` (traits.rs:860-862): the sum
+saturates at `u32::MAX`, in every profile. -/
+def sumSatU32 (xs : List Nat) : Nat := xs.foldl satAdd 0
 
 /-- `BufMutSlice::total_spare_capacity`. -/
-def MSlice.totalSpare : MSlice → Option Nat
-  | .arr bs => sumU32 (bs.map (·.spare))
+def MSlice.totalSpare : MSlice → Nat
+  | .arr bs => sumSatU32 (bs.map (·.spare))
   -- traits.rs:1014-1016.
-  | .limited i l => i.totalSpare.map fun t => asU32 (min t l)
+  | .limited i l => asU32 (min i.totalSpare l)
   | .readN i _ => i.totalSpare
 
 /-- `BufMutSlice::has_spare_capacity`: arrays `any`, tuples `false || …`,
@@ -565,10 +566,6 @@ def showBool (b : Bool) : String := if b then "1" else "0"
 def showContents (cs : List (List Nat)) : String :=
   if cs.isEmpty then "none" else joinWith "|" (cs.map hex)
 
-def showOptNat : Option Nat → String
-  | some n => toString n
-  | none => "panic"
-
 /-- The spare room of the allocation itself (what `set_init` may use without
 leaving the allocation). -/
 def MBuf.physSpare (b : MBuf) : Nat :=
@@ -586,7 +583,7 @@ def qRS (s : RSlice) : String :=
   s!"iovecs={showRegions s.iovecs} total={s.totalLen} empty={showBool s.isEmpty} bytes={hex s.exposed.flatten}"
 
 def qMS (s : MSlice) : String :=
-  s!"iovecs={showRegions s.iovecsMut} spare={showOptNat s.totalSpare} has={showBool s.hasSpare} contents={showContents (s.elems.map (·.content))}"
+  s!"iovecs={showRegions s.iovecsMut} spare={s.totalSpare} has={showBool s.hasSpare} contents={showContents (s.elems.map (·.content))}"
 
 /-- `bufs caps <arr|tup> <c,c,…>`: what a plain array / tuple of *empty*
 `Vec<u8>`s with these capacities reports (`Base.spare`, `Base.partsMut`,
@@ -597,7 +594,7 @@ def capsRow (caps : List Nat) : String :=
   let spares := caps.map fun c => asU32 (c - 0)
   let has := caps.any fun c => decide (c > 0)
   let l := joinWith "," (spares.map toString)
-  s!"spares={l} total={showOptNat (sumU32 spares)} has={showBool has} iovlens={l}"
+  s!"spares={l} total={sumSatU32 spares} has={showBool has} iovlens={l}"
 
 /-- Comma separated list; `.` is the empty list. -/
 def decList {α : Type} (f : String → Option α) (s : String) : Option (List α) :=
